@@ -87,6 +87,20 @@ impl TaskValid {
         }
     }
 
+    /// A condition (`when`, `changed_when`): absent, or a boolean, a number, a string or a list of
+    /// them. Anything else is an error: dropping it would run the task unconditionally.
+    fn parse_condition(&'_ self, name: &str) -> Result<Option<String>> {
+        match &self.attrs[name] {
+            Value::Null => Ok(None),
+            attr => self.parse_array(attr).map(Some).ok_or_else(|| {
+                Error::new(
+                    ErrorKind::InvalidData,
+                    format!("{name} must be a boolean, a number, a string or a list of them: {attr:?}"),
+                )
+            }),
+        }
+    }
+
     pub fn get_task<'a>(&self, global_params: &'a GlobalParams) -> Result<Task<'a>> {
         let module_name: &str = &self.get_module_name()?;
 
@@ -101,7 +115,7 @@ impl TaskValid {
                 Value::Number(n) => n.to_string(),
                 _ => global_params.become_user.to_owned(),
             },
-            changed_when: self.parse_array(&self.attrs["changed_when"]),
+            changed_when: self.parse_condition("changed_when")?,
             check_mode: match global_params.check_mode {
                 true => true,
                 false => self.attrs["check_mode"].as_bool().unwrap_or(false),
@@ -119,7 +133,7 @@ impl TaskValid {
             r#loop: self.attrs.get("loop").map(|_| self.attrs["loop"].clone()),
             register: self.attrs["register"].as_str().map(String::from),
             vars: self.attrs.get("vars").map(|_| self.attrs["vars"].clone()),
-            when: self.parse_array(&self.attrs["when"]),
+            when: self.parse_condition("when")?,
             global_params,
         })
     }
